@@ -140,13 +140,135 @@ theorem layout_bits (cfg : Cfg) (al : Bool) (n : String) (an : Bool) (ty : Ty) (
           · cases h
           · rename_i hge
             obtain ⟨offs', hr, rfl⟩ := C04.Lemmas.layout_step_inv h
-            exact ⟨ft, fsz, true, offs', rfl, hs, ht, (fun _ => ⟨by omega, rfl, hr⟩), (fun hc => by cases hc)⟩
+            exact ⟨ft, fsz, true, offs', hb, hs, ht, (fun _ => ⟨by omega, rfl, hr⟩), (fun hc => by cases hc)⟩
         | false =>
           simp only [Bool.false_eq_true, if_false] at h
           split at h
           · cases h
           · rename_i hge
             obtain ⟨offs', hr, rfl⟩ := C04.Lemmas.layout_step_inv h
-            exact ⟨ft, fsz, false, offs', rfl, hs, ht, (fun hc => by cases hc), (fun _ => ⟨by omega, rfl, hr⟩)⟩
+            exact ⟨ft, fsz, false, offs', hb, hs, ht, (fun hc => by cases hc), (fun _ => ⟨by omega, rfl, hr⟩)⟩
+
+/-! ### the alignment of the structure -/
+
+/-- in an aligned structure the alignment of every member divides the alignment of the structure -/
+def AlignDvd (cfg : Cfg) (al : Bool) (salign : Nat) : Fields → Prop
+  | .nil => True
+  | .cons _ _ ty _ rest => (al = true → ty.alignment cfg ∣ salign) ∧ AlignDvd cfg al salign rest
+
+def AllP2 (cfg : Cfg) : Fields → Prop
+  | .nil => True
+  | .cons _ _ ty _ rest => IsP2 (ty.alignment cfg) ∧ AllP2 cfg rest
+
+theorem layout_alignDvd (cfg : Cfg) (al : Bool) : ∀ (fs : Fields) (st : LState) (sz : Option Nat) (sa : Nat)
+    (offs : List (Option Nat)), Fields.layout cfg al fs st = .ok (sz, sa, offs) →
+    (st.alignment = 0 ∨ IsP2 st.alignment) → AllP2 cfg fs →
+    (st.alignment = 0 ∨ st.alignment ∣ sa) ∧ AlignDvd cfg al sa fs
+  | .nil, st, sz, sa, offs, h, _, _ => by
+    rw [Fields.layout] at h
+    simp only [Except.ok.injEq, Prod.mk.injEq] at h
+    obtain ⟨_, rfl, _⟩ := h
+    exact ⟨Or.inr (Nat.dvd_refl _), trivial⟩
+  | .cons n an ty bits rest, st, sz, sa, offs, h, hst, hp2 => by
+    obtain ⟨hfa, hrest⟩ := hp2
+    have key : ∀ st' : LState, st'.alignment = max st.alignment (ty.alignment cfg) →
+        ∀ offs', Fields.layout cfg al rest st' = .ok (sz, sa, offs') →
+        (st.alignment = 0 ∨ st.alignment ∣ sa) ∧ AlignDvd cfg al sa (.cons n an ty bits rest) := by
+      intro st' hal offs' hr
+      have hmax : IsP2 (max st.alignment (ty.alignment cfg)) := isP2_max hfa hst
+      obtain ⟨h1, h2⟩ := layout_alignDvd cfg al rest st' sz sa offs' hr (by rw [hal]; exact Or.inr hmax) hrest
+      have hd : max st.alignment (ty.alignment cfg) ∣ sa := by
+        rw [hal] at h1
+        rcases h1 with h1 | h1
+        · have := hmax.pos; omega
+        · exact h1
+      refine ⟨?_, fun _ => Nat.dvd_trans (dvd_max_right hfa hst) hd, h2⟩
+      rcases hst with h0 | hp
+      · exact Or.inl h0
+      · exact Or.inr (Nat.dvd_trans (dvd_max_left hfa hp) hd)
+    by_cases hb : isBitsField bits = false
+    · obtain ⟨offs', _, hr⟩ := layout_plain cfg al n an ty bits rest st sz sa offs hb h
+      exact key _ rfl offs' hr
+    · obtain ⟨b, rfl⟩ : ∃ b, bits = some (b + 1) := by
+        cases bits with
+        | none => simp [isBitsField] at hb
+        | some k =>
+          cases k with
+          | zero => simp [isBitsField] at hb
+          | succ b => exact ⟨b, rfl⟩
+      obtain ⟨ft, fsz, nu, offs', _, _, _, h1, h2⟩ := layout_bits cfg al n an ty b rest st sz sa offs h
+      cases nu with
+      | true => exact key _ rfl offs' (h1 rfl).2.2
+      | false => exact key _ rfl offs' (h2 rfl).2.2
+
+/-! ### compileWF, member by member -/
+
+theorem compileWF_cons {cfg : Cfg} {al : Bool} {n : String} {an : Bool} {ty : Ty} {bits : Option Nat} {rest : Fields}
+    (h : compileWF cfg al (.cons n an ty bits rest) = true) :
+    memberWF cfg al ty bits = true ∧ (isVoid ty = true → bits = none → n ∉ Fields.names rest) ∧
+      compileWF cfg al rest = true := by
+  simp only [compileWF, Bool.and_eq_true, Bool.or_eq_true, Bool.not_eq_true', Bool.and_eq_false_iff] at h
+  obtain ⟨⟨h1, h2⟩, h3⟩ := h
+  refine ⟨h1, fun hv hb => ?_, h3⟩
+  subst hb
+  rcases h2 with (h2 | h2) | h2
+  · rw [hv] at h2; cases h2
+  · simp at h2
+  · intro hmem
+    have : (Fields.names rest).contains n = true := List.contains_iff_mem.mpr hmem
+    rw [this] at h2
+    cases h2
+
+theorem memberWF_bits_ne {cfg : Cfg} {al : Bool} {ty : Ty} {bits : Option Nat} (h : memberWF cfg al ty bits = true) :
+    bits ≠ some 0 := by
+  simp only [memberWF, Bool.and_eq_true, bne_iff_ne, ne_eq] at h
+  exact h.1.1.1.1
+
+theorem memberWF_p2 {cfg : Cfg} {al : Bool} {ty : Ty} {bits : Option Nat} (h : memberWF cfg al ty bits = true)
+    (hal : al = true) : IsP2 (ty.alignment cfg) := by
+  simp only [memberWF, Bool.and_eq_true, Bool.or_eq_true, Bool.not_eq_true'] at h
+  rcases h.1.1.1.2 with h | h
+  · rw [hal] at h; cases h
+  · exact isPow2b_spec h
+
+theorem memberWF_void {cfg : Cfg} {al : Bool} {ty : Ty} {bits : Option Nat} (h : memberWF cfg al ty bits = true)
+    (hv : isVoid ty = true) : (!al || ty.alignment cfg == 1) = true := by
+  simp only [memberWF, Bool.and_eq_true, Bool.or_eq_true, Bool.not_eq_true', beq_iff_eq] at h
+  rcases h.1.1.2 with (h | h) | h
+  · simp [h]
+  · rw [hv] at h; cases h
+  · simp [h]
+
+theorem compileWF_allP2 (cfg : Cfg) : ∀ fs : Fields, compileWF cfg true fs = true → AllP2 cfg fs
+  | .nil, _ => trivial
+  | .cons _ _ _ _ rest, h => by
+    obtain ⟨h1, _, h3⟩ := compileWF_cons h
+    exact ⟨memberWF_p2 h1 rfl, compileWF_allP2 cfg rest h3⟩
+
+theorem alignDvd_false (cfg : Cfg) (sa : Nat) : ∀ fs : Fields, AlignDvd cfg false sa fs
+  | .nil => trivial
+  | .cons _ _ _ _ rest => ⟨(fun h => by cases h), alignDvd_false cfg sa rest⟩
+
+/-! ### void members of a dynamic tail -/
+
+theorem dropVoids_dyn (cfg : Cfg) (al : Bool) : ∀ (fs : Fields) (st : LState) (sz : Option Nat) (sa : Nat)
+    (offs : List (Option Nat)), Fields.layout cfg al fs st = .ok (sz, sa, offs) → st.offset = none →
+    compileWF cfg al fs = true → ∃ r, dropVoids cfg al fs offs none = some r
+  | .nil, _, _, _, offs, _, _, _ => ⟨_, dropVoids_nil cfg al offs none⟩
+  | .cons n an ty bits rest, st, sz, sa, offs, h, hst, hwf => by
+    by_cases hv : isVoid ty = true ∧ bits.isNone = true
+    · obtain ⟨hv1, hv2⟩ := hv
+      have hb : bits = none := Option.isNone_iff_eq_none.mp hv2
+      subst hb
+      obtain ⟨hm, _, hrest⟩ := compileWF_cons hwf
+      obtain ⟨offs', rfl, hr⟩ := layout_plain cfg al n an ty none rest st sz sa offs rfl h
+      rw [hst] at hr ⊢
+      obtain ⟨r, hr'⟩ := dropVoids_dyn cfg al rest _ sz sa offs' hr rfl hrest
+      obtain ⟨a, b, c⟩ := r
+      refine ⟨(a, b, true), ?_⟩
+      rw [dropVoids_void _ _ _ _ _ _ _ _ hv1]
+      have : voidOK cfg al ty (hdOff (alignOpt al none (ty.alignment cfg) :: offs')) none = true := memberWF_void hm hv1
+      rw [if_pos this, List.drop_one, List.tail_cons, hr']
+    · exact ⟨_, dropVoids_nonvoid _ _ _ _ _ _ _ _ _ hv⟩
 
 end Cstruct.Compiler
